@@ -61,6 +61,10 @@ type Engine struct {
 	frame        *frameInfo
 	curProp      string
 	curCallee    *ssa.Function // static callee of the contract call being applied (nil: dynamic)
+	topFrame     *Frame        // frame of the function under verification
+	callFrame    *Frame        // frame executing the contract call being applied
+	backCovers   []Outcome     // states that reached a loop back edge of the function under verification (vacuity of loop bodies)
+	privTypes    map[*ssa.Function][]*types.Slice
 	mergeInlined bool
 	deadline     time.Time
 	funcBudgetS  int
@@ -559,6 +563,11 @@ func (e *Engine) pos(ins ssa.Instruction) string {
 			}
 		}
 	}
+	pp := e.w.Fset.Position(p)
+	return fmt.Sprintf("%s:%d", strings.TrimPrefix(pp.Filename, e.w.RepoDir+"/"), pp.Line)
+}
+
+func (e *Engine) posOf(p token.Pos) string {
 	pp := e.w.Fset.Position(p)
 	return fmt.Sprintf("%s:%d", strings.TrimPrefix(pp.Filename, e.w.RepoDir+"/"), pp.Line)
 }
